@@ -58,3 +58,46 @@ pub fn loadasm(rest: &str) -> String {
         Err(e) => format!("err {}", hex(format!("{}", e).as_bytes())),
     }
 }
+
+/// `disasraw <version> <generator> <bound> <imports> <globals> <block>`: a hand-made module — any header words, and
+/// instructions put directly into `ext_inst_imports`, `types_global_values` and one block of one function (lists are `-` or
+/// instruction texts joined by `/`). Reaches what no loaded or Builder-made module has: foreign generator ids, OpConstant
+/// with a non-literal operand, OpExtInst with fewer than two operands.
+pub fn disasraw(rest: &str) -> String {
+    use rspirv::dr;
+    let p: Vec<&str> = rest.split_whitespace().collect();
+    if p.len() != 6 {
+        return "bad-request".to_string();
+    }
+    let nums: Option<Vec<u32>> = p[..3].iter().map(|x| x.parse().ok()).collect();
+    let nums = match nums {
+        Some(n) => n,
+        None => return "bad-request".to_string(),
+    };
+    let list = |s: &str| -> Option<Vec<dr::Instruction>> {
+        if s == "-" {
+            Some(vec![])
+        } else {
+            s.split('/').map(read_inst).collect()
+        }
+    };
+    let (imports, globals, block) = match (list(p[3]), list(p[4]), list(p[5])) {
+        (Some(a), Some(b), Some(c)) => (a, b, c),
+        _ => return "bad-request".to_string(),
+    };
+    let mut m = dr::Module::new();
+    let mut h = dr::ModuleHeader::new(nums[2]);
+    h.version = nums[0];
+    h.generator = nums[1];
+    m.header = Some(h);
+    m.ext_inst_imports = imports;
+    m.types_global_values = globals;
+    if !block.is_empty() {
+        let mut f = dr::Function::new();
+        let mut b = dr::Block::new();
+        b.instructions = block;
+        f.blocks.push(b);
+        m.functions.push(f);
+    }
+    format!("ok {}", hex(m.disassemble().as_bytes()))
+}
